@@ -103,11 +103,24 @@ def h_factory(kind):
                 reach.append(('consecutive draws can differ', G.Z(G.Or([G.T(x2[i] != x[i]) for i in range(n)]))))
             fn0 = ctx.mod('sempler.functions')
             cl.append(('null(...) contributes exactly 0', fn0.null() == 0 and fn0.null(x) == 0 and fn0.null(x, 1) == 0))
-            return PathResult('returned', cl, inputs=dict(kind=kind, a=a, b=b, n=n, seed=seed), call='factory', info=dict(kind=kind, n=n), reach=reach)
+            from harness import rngscript
+            return PathResult('returned', cl, inputs=dict(kind=kind, a=a, b=b, n=n, seed=seed, rng=rngscript.script(draws[:1])), call='factory',
+                              info=dict(kind=kind, n=n), reach=reach, diff=(_real_first, ['ok', x.tolist()] if ok else None, dict(nice=True, tol=1e-9)))
         fn0 = ctx.mod('sempler.functions')
         cl.append(('null(...) contributes exactly 0', fn0.null() == 0 and fn0.null(1, 2) == 0))
         return PathResult('returned', cl, inputs=dict(kind=kind, a=a, b=b, n=n, seed=seed), call='factory', info=dict(kind=kind, n=n))
     return fn
+
+
+def _real_first(inp):
+    """the first draw of the factory on the real library, with the variates the solver chose"""
+    from harness import rngscript
+    s = real_sempler()
+    a, b = float(unj(inp['a'])), float(unj(inp['b']))
+    f = {'normal': s.noise.normal, 'uniform': s.noise.uniform, 'laplace': s.noise.laplace}[inp['kind']](a, b)
+    with rngscript.scripted(inp.get('rng')):
+        x = f(int(inp['n']))
+    return ['ok', x.tolist()]
 
 
 def obligations(tier):
